@@ -245,6 +245,18 @@ func VC05_pending() {
 	vrt.Assume(n1 > 0 && n1 < 1<<20 && n2 > 0 && n2 < 1<<20)
 	c.Add(n1)
 	d.Add(n2)
+	// optionally a backlog of counters with long names, so that flushing them at the open
+	// extends the file more than once (extensions nested inside one another's clean-up)
+	if vrt.Bool() {
+		long := make([]byte, 4000)
+		for i := range long {
+			long[i] = 'n'
+		}
+		for i := 0; i < 4; i++ {
+			long[0] = byte('0' + i)
+			(&Counter{name: string(long), file: f}).Add(1)
+		}
+	}
 	f.rotate1()
 	vrt.Reach("opened")
 	vrt.Assert(f.err == nil && f.current.Load() != nil, "the file opens")
